@@ -1,7 +1,9 @@
 SPECIFICATION SSpec
 CONSTANTS
   Last = 5
-  MaxSteps = 1
+  MaxK = 2
+  MaxD = 2
+  MaxSteps = 2
 INVARIANTS InsertDeleteIdentity ClearUndoIdentity Emit
 PROPERTIES MovePermutes InsertLosesNothing
 CHECK_DEADLOCK FALSE
